@@ -32,7 +32,9 @@ AttrForms == {"tok_ok", "rx_ok", "rx_cb_ok", "rx_greedy_allowed", "no_attr", "tw
               \* closure bodies that are one parenthesised group (a tuple / the unit value), or that start with a block-like
               \* expression (match, if, unsafe) and either end with it or go on after it
               "rx_cb_tuple_only", "rx_cb_unit_parens", "rx_cb_match_only", "rx_cb_match_tail", "rx_cb_if_only", "rx_cb_if_tail",
-              "rx_cb_match_method", "rx_cb_unsafe_only", "rx_cb_neg", "rx_cb_ref_tuple", "rx_cb_closure_call"}
+              "rx_cb_match_method", "rx_cb_unsafe_only", "rx_cb_neg", "rx_cb_ref_tuple", "rx_cb_closure_call",
+              \* a callback that is no expression / a closure with a declared return type (its body is no block content)
+              "rx_cb_ret_type", "cb_garbage_label"}
 
 EnumForms == {"plain", "extras", "error_ty", "error_cb", "skip_ok", "skip_group", "utf8_false", "utf8_true", "crate_path", "subpattern_ok",
               \* generic enums: lifetimes and type parameters
@@ -44,6 +46,9 @@ EnumForms == {"plain", "extras", "error_ty", "error_cb", "skip_ok", "skip_group"
               "sub_dup", "sub_bad_name", "sub_undef_ref", "sub_nonutf8", "source_deprecated", "error_attr_variant", "const_generic", "dup_error_cb",
               \* an error callback whose body is a tuple / starts with a block-like expression
               "error_cb_tuple", "error_cb_match_tail",
+              \* values that are pasted into the output and are not what they have to be; a crate path given twice;
+              \* a concrete type given in terms of a type parameter (itself: the substitution would never end)
+              "extras_empty", "error_empty", "crate_literal", "dup_crate", "gen_type_chain", "gen_type_self",
               \* tokens after a `name "literal"` item
               "skip_lit_tail", "skip_lit_tail_lit",
               \* a subpattern source that is not a regex on its own
